@@ -117,30 +117,92 @@ package at
 //@ func (*insertExecutor).afterImage
 //@   prop C03
 //@   requires i != nil && i.execContext != nil && i.execContext.TxCtx != nil && i.execContext.TxCtx.LockKeys != nil && ctx != nil
-//@   modifies heap.all
+//@   modifies entries(i.execContext.TxCtx.LockKeys)
 //@   ensures key-of-the-image-is-collected: result1 == nil && result0 != nil ==> called("buildLockKey#1") && callarg("buildLockKey#1", 1) == result0 && haskey(i.execContext.TxCtx.LockKeys, callres("buildLockKey#1", 0))
 //@   at call buildLockKey#1: assert key-from-this-tables-meta: metaData != nil
 //@   may_panic
 //@ func (*updateExecutor).beforeImage
 //@   prop C03
 //@   requires u != nil && u.execContext != nil && u.execContext.TxCtx != nil && u.execContext.TxCtx.LockKeys != nil && ctx != nil
-//@   modifies heap.all
+//@   modifies entries(u.execContext.TxCtx.LockKeys)
 //@   ensures key-of-the-image-is-collected: result1 == nil && result0 != nil ==> called("buildLockKey#1") && callarg("buildLockKey#1", 1) == result0 && haskey(u.execContext.TxCtx.LockKeys, callres("buildLockKey#1", 0))
 //@   at call buildLockKey#1: assert key-from-this-tables-meta: metaData != nil
 //@   may_panic
 //@ func (*deleteExecutor).beforeImage
 //@   prop C03
 //@   requires d != nil && d.execContext != nil && d.execContext.TxCtx != nil && d.execContext.TxCtx.LockKeys != nil && ctx != nil
-//@   modifies heap.all
+//@   modifies entries(d.execContext.TxCtx.LockKeys)
 //@   ensures key-of-the-image-is-collected: result1 == nil && result0 != nil ==> called("buildLockKey#1") && callarg("buildLockKey#1", 1) == result0 && haskey(d.execContext.TxCtx.LockKeys, callres("buildLockKey#1", 0))
 //@   at call buildLockKey#1: assert key-from-this-tables-meta: metaData != nil
 //@   may_panic
 //@ func (*insertOnUpdateExecutor).afterImage
 //@   prop C03
 //@   requires i != nil && i.execContext != nil && i.execContext.TxCtx != nil && i.execContext.TxCtx.LockKeys != nil && ctx != nil
-//@   modifies heap.all
+//@   modifies entries(i.execContext.TxCtx.LockKeys)
 //@   ensures key-of-the-image-is-collected: result1 == nil && result0 != nil ==> called("buildLockKey#1") && callarg("buildLockKey#1", 1) == result0 && haskey(i.execContext.TxCtx.LockKeys, callres("buildLockKey#1", 0))
 //@   at call buildLockKey#1: assert key-from-this-tables-meta: metaData != nil
+//@   may_panic
+
+// ... and the executor records exactly that image for the undo log: the rows that can be rolled back
+// are the rows whose keys are locked. (A statement that fails records nothing and returns the error.)
+//@ func (*insertExecutor).beforeImage
+//@   trusted
+//@   ensures true
+//@ func (*updateExecutor).afterImage
+//@   trusted
+//@   ensures true
+//@ func (*deleteExecutor).afterImage
+//@   trusted
+//@   ensures true
+//@ ext (*seata.apache.org/seata-go/pkg/datasource/sql/types.RoundRecordImage).AppendBeofreImage
+//@   modifies *self, *image
+//@   ensures true
+//@ ext (*seata.apache.org/seata-go/pkg/datasource/sql/types.RoundRecordImage).AppendAfterImage
+//@   modifies *self, *image
+//@   ensures true
+//@ func (*insertExecutor).ExecContext
+//@   prop C03
+//@   requires i.execContext != nil && i.execContext.TxCtx != nil && i.execContext.TxCtx.LockKeys != nil && i.execContext.TxCtx.RoundImages != nil && ctx != nil && f != nil
+//@   modifies heap.all, ghost.all
+//@   ensures statement-before-success: result1 == nil ==> called("callback:f#1") && callres("callback:f#1", 1) == nil && result0 == callres("callback:f#1", 0)
+//@   ensures locked-image-is-the-recorded-one: result1 == nil ==> called("afterImage#1") && callres("afterImage#1", 1) == nil && called("AppendAfterImage#1") && callarg("AppendAfterImage#1", 1) == callres("afterImage#1", 0)
+//@   may_panic
+//@ func (*updateExecutor).ExecContext
+//@   prop C03
+//@   requires u.execContext != nil && u.execContext.TxCtx != nil && u.execContext.TxCtx.LockKeys != nil && u.execContext.TxCtx.RoundImages != nil && ctx != nil && f != nil
+//@   modifies heap.all, ghost.all
+//@   ensures statement-before-success: result1 == nil ==> called("callback:f#1") && callres("callback:f#1", 1) == nil && result0 == callres("callback:f#1", 0)
+//@   ensures locked-image-is-the-recorded-one: result1 == nil ==> called("beforeImage#1") && callres("beforeImage#1", 1) == nil && called("AppendBeofreImage#1") && callarg("AppendBeofreImage#1", 1) == callres("beforeImage#1", 0)
+//@   may_panic
+//@ func (deleteExecutor).ExecContext
+//@   prop C03
+//@   requires d.execContext != nil && d.execContext.TxCtx != nil && d.execContext.TxCtx.LockKeys != nil && d.execContext.TxCtx.RoundImages != nil && ctx != nil && f != nil
+//@   modifies heap.all, ghost.all
+//@   ensures statement-before-success: result1 == nil ==> called("callback:f#1") && callres("callback:f#1", 1) == nil && result0 == callres("callback:f#1", 0)
+//@   ensures locked-image-is-the-recorded-one: result1 == nil ==> called("beforeImage#1") && callres("beforeImage#1", 1) == nil && called("AppendBeofreImage#1") && callarg("AppendBeofreImage#1", 1) == callres("beforeImage#1", 0)
+//@   may_panic
+
+// multi-statement executors: one image for all statements, same rule
+//@ func (*multiDeleteExecutor).buildBeforeImageSQL
+//@   trusted
+//@   ensures true
+//@ func (*multiDeleteExecutor).getFromTableInSQL
+//@   trusted
+//@   ensures true
+//@ func (*multiUpdateExecutor).buildBeforeImageSQL
+//@   trusted
+//@   ensures true
+//@ func (*multiDeleteExecutor).beforeImage
+//@   prop C03
+//@   requires m != nil && m.execContext != nil && m.execContext.TxCtx != nil && m.execContext.TxCtx.LockKeys != nil && ctx != nil
+//@   modifies entries(m.execContext.TxCtx.LockKeys)
+//@   ensures key-of-the-image-is-collected: result1 == nil && result0 != nil ==> called("buildLockKey#1") && len(result0) == 1 && callarg("buildLockKey#1", 1) == result0[0] && haskey(m.execContext.TxCtx.LockKeys, callres("buildLockKey#1", 0))
+//@   may_panic
+//@ func (*multiUpdateExecutor).beforeImage
+//@   prop C03
+//@   requires u != nil && u.execContext != nil && u.execContext.TxCtx != nil && u.execContext.TxCtx.LockKeys != nil && ctx != nil
+//@   modifies entries(u.execContext.TxCtx.LockKeys), rows
+//@   ensures key-of-the-image-is-collected: result1 == nil && result0 != nil ==> called("buildLockKey#1") && len(result0) == 1 && callarg("buildLockKey#1", 1) == result0[0] && haskey(u.execContext.TxCtx.LockKeys, callres("buildLockKey#1", 0))
 //@   may_panic
 
 //@ func (*selectForUpdateExecutor).doExecContext
